@@ -163,16 +163,17 @@ Print Assumptions impl_values_schedule_independent.
 (* ---------- P19b stage 3a/3b: incremental builds (rule scanning), for every schedule ---------- *)
 From LLB Require Import Engine.ImplInc1 Engine.ImplInc9 Engine.ImplInc10.
 
-(* [HInv rules F s]: the engine instance is at rest (quiescent), has no database, no rule is marked cancelled or left in the state
+(* [HInv rules F s]: the engine instance is at rest (quiescent), no rule is marked cancelled or left in the state
    "does not need to run", every stored result has computedAt <= builtAt <= the epoch, carries the signature of its rule and is a
    true row (ImplInc1.rowok: its value is what the task function gives for the values now stored for its recorded inputs, provided
-   none of them - single-use inputs apart - was recomputed after the row was built; its recorded inputs are keys the rule may request).
+   none of them - single-use inputs apart - was recomputed after the row was built; its recorded inputs are keys the rule may request or discover).
    HInv does not mention the environment: the world may change arbitrarily between builds.  impl_hinv_init: a new engine satisfies it.
 
-   PARTIAL - the exact gap to the full statement `impl_build_values_clean`: (1) the engine has no database attached
-   (is_usedb = false, part of HInv), so a restart from the database is not covered; (2) the rule table is the same in all builds (no
-   rule edits, hence no signature changes); (3) every earlier build returned normally (no cancelled rule is left behind: part of
-   HInv).  wf_disc (discovered dependencies are rules that observe external state) is the premise of Properties_C01.
+   PARTIAL - the exact gap to the full statement `impl_build_values_clean`: (1) the rule table is the same in all builds (no rule
+   edits, hence no signature changes); (2) every earlier build returned normally (no cancelled rule is left behind: part of HInv).
+   The builds are builds of one engine instance, with or without a database attached (HInv does not say which); a restart from the
+   database is the subject of impl_restart_from_database / impl_history_restarts_values_clean_partial below (stage 3b-3).
+   wf_disc (discovered dependencies are rules that observe external state) is the premise of Properties_C01.
    Single-use requests and discovered dependencies (stages 3b-1, 3b-2: the restrictions r_single = [] and r_disc = [] of the first
    version are lifted), must-follow inputs, branch requests, observation of external state (r_obs), changes of the environment
    between builds, every completion policy [syncp], every schedule and all fuels are covered. *)
@@ -183,6 +184,16 @@ Theorem impl_build_values_clean_partial : forall rules F rank ord syncp,
   ((rank root < cfuel)%nat -> res_value (res_of sf root) = cv rules env F cfuel root) /\ HInv rules F sf.
 Proof. exact build_values_clean. Qed.
 Print Assumptions impl_build_values_clean_partial.
+
+(* ... and the value stored for EVERY key that is complete in the epoch of the build is its clean value *)
+Theorem impl_build_values_clean_all_partial : forall rules F rank ord syncp,
+  wf_rank rules rank -> wf_disc rules -> (forall k, In RReq (ord k)) ->
+  forall env fuel pfuel cfuel s0 root sched sf m, HInv rules F s0 ->
+  ibuild rules env F ord syncp fuel pfuel s0 root sched = (RDone sf, m) -> is_fault sf = None ->
+  forall k, kind_of sf k = KComplete -> res_builtAt (res_of sf k) = is_epoch sf -> (rank k < cfuel)%nat ->
+  res_value (res_of sf k) = cv rules env F cfuel k.
+Proof. exact build_values_clean_all. Qed.
+Print Assumptions impl_build_values_clean_all_partial.
 
 Theorem impl_hinv_init : forall rules F, HInv rules F init_istate.
 Proof. exact HInv_init. Qed.
@@ -205,8 +216,7 @@ From LLB Require Import Engine.SpecC01 Engine.ImplInc11.
 (* One build.  The specification engine Spec.build from any of its states at rest (AtRest, Properties_C01) and the small-step engine
    from any of its states at rest (HInv), the same rule table, environment and requested key: if both return, they return the same
    value - for every dependency-order oracle of the one and every completion policy, schedule and fuels of the other.
-   PARTIAL: the restrictions of impl_build_values_clean_partial (no database,
-   fixed rule table, no cancelled build before). *)
+   PARTIAL: the restrictions of impl_build_values_clean_partial (fixed rule table, no cancelled build before). *)
 Theorem impl_refines_spec_values_partial : forall rules F rank ord syncp order,
   wf_rank rules rank -> wf_disc rules -> (forall k, In RReq (ord k)) ->
   wf_order order ->
@@ -227,3 +237,55 @@ Theorem impl_refines_spec_history_partial : forall rules F rank ord syncp order,
   run_builds rules F ord syncp init_istate bs = Some (sf, vs2) -> vs2 = vs1.
 Proof. exact refines_spec_history. Qed.
 Print Assumptions impl_refines_spec_history_partial.
+
+(* ---------- P19b stage 3b-3: engines with a database, restart from the database ---------- *)
+From LLB Require Import Engine.ImplInc13 Engine.ImplInc14.
+
+(* [DInv rules F s]: HInv, the engine has a database (is_usedb = true) whose stored iteration is the epoch, and memory and database are
+   in step (ImplInc13.DBI): for every rule the database row has the value, signature, computedAt of the memory row, a builtAt that
+   is not larger (a rule found not to need to run is stamped in memory only), and the dependencies of the memory row plus,
+   possibly, single-use dependencies the memory row has dropped.  impl_dinv_new: a new engine over an empty database.
+   A build keeps DInv and returns the clean value; so does a restart (irestart true: a new instance, nothing loaded, every rule
+   record read from is_db on first use).  Together with impl_build_values_clean_partial this lifts the restriction "no restart
+   from the database"; what remains is the fixed rule table and that every build returns normally. *)
+Theorem impl_dinv_new : forall rules F, DInv rules F (irestart true init_istate).
+Proof. exact DInv_new. Qed.
+Print Assumptions impl_dinv_new.
+
+Theorem impl_build_values_clean_db_partial : forall rules F rank ord syncp,
+  wf_rank rules rank -> wf_disc rules -> (forall k, In RReq (ord k)) ->
+  forall env fuel pfuel cfuel s0 root sched sf m, DInv rules F s0 ->
+  ibuild rules env F ord syncp fuel pfuel s0 root sched = (RDone sf, m) -> is_fault sf = None ->
+  ((rank root < cfuel)%nat -> res_value (res_of sf root) = cv rules env F cfuel root) /\ DInv rules F sf.
+Proof. exact build_DInv. Qed.
+Print Assumptions impl_build_values_clean_db_partial.
+
+Theorem impl_restart_from_database : forall rules F s, DInv rules F s -> DInv rules F (irestart true s).
+Proof. exact restart_DInv. Qed.
+Print Assumptions impl_restart_from_database.
+
+(* a restart without a database is a new engine *)
+Theorem impl_restart_nodb : forall rules F s, is_fault s = None -> ImplInc1.HInv rules F (irestart false s).
+Proof. exact restart_nodb_HInv. Qed.
+Print Assumptions impl_restart_nodb.
+
+(* Any history of builds and restarts of an engine with a database, from a new engine over an empty database: every build returns
+   the clean value of its requested key for its environment. *)
+Theorem impl_history_restarts_values_clean_partial : forall rules F rank ord syncp,
+  wf_rank rules rank -> wf_disc rules -> (forall k, In RReq (ord k)) ->
+  forall cfuel ops s sf vs, DInv rules F s -> run_hops rules F ord syncp s ops = Some (sf, vs) ->
+  (forall b, In b (hop_roots ops) -> (rank (bs_root b) < cfuel)%nat) ->
+  vs = map (fun b => cv rules (bs_env b) F cfuel (bs_root b)) (hop_roots ops) /\ DInv rules F sf.
+Proof. exact hops_values_clean. Qed.
+Print Assumptions impl_history_restarts_values_clean_partial.
+
+(* The same for engines with a database: both engines from a new instance over an empty database, the same list of builds and
+   restarts (Spec.restart / irestart true): the lists of returned values are equal. *)
+From LLB Require Import Engine.ImplInc15.
+Theorem impl_refines_spec_history_restarts_partial : forall rules F rank ord syncp order,
+  wf_rank rules rank -> wf_disc rules -> (forall k, In RReq (ord k)) -> wf_order order ->
+  forall fuel ops ssf vs1 sf vs2, (forall b, In b (hop_roots ops) -> (rank (bs_root b) < fuel)%nat) ->
+  spec_hops rules F order fuel (restart init_state) ops = Some (ssf, vs1) ->
+  run_hops rules F ord syncp (irestart true init_istate) ops = Some (sf, vs2) -> vs2 = vs1.
+Proof. exact refines_spec_hops. Qed.
+Print Assumptions impl_refines_spec_history_restarts_partial.
